@@ -459,7 +459,7 @@ Qed.
 
 (* a run of sibling functions: k new cells (the evaluator's closures over the common environment e'), their
    images the k slot cells, k new vectors *)
-Lemma MS_run : forall m st h H' (fds : list fdef) (e : env) newvecs,
+Lemma MS_run : forall m st h H' (fds : list fdef) (e : env) newvecs newcps,
   MS m st h -> NoDup (map fd_name fds) ->
   (forall a, (a < length h)%nat -> nth_error H' a = nth_error h a) ->
   (forall v l, In (v, l) newvecs -> nth_error H' v = Some (HVec l)) ->
@@ -467,14 +467,16 @@ Lemma MS_run : forall m st h H' (fds : list fdef) (e : env) newvecs,
   let e' := func_env fds c0 e in
   (forall x c, lookup x e' = Some c -> is_fname FS x = false) ->
   let m' := {| mm := mm m ++ map MA (seq (length h) (length fds)); mv := mv m ++ newvecs;
-               mf := mf m ++ combine (seq c0 (length fds)) (map (fun f => (f, e')) fds); mc := mc m; mi := mi m |} in
+               mf := mf m ++ combine (seq c0 (length fds)) (map (fun f => (f, e')) fds); mc := mc m ++ newcps; mi := mi m |} in
   (forall j fd, nth_error fds j = Some fd ->
      exists v ad addr, nth_error H' (length h + j) = Some (HFun v addr) /\ In (v, ad) newvecs /\
        fun_addr fd addr /\
        Forall2 (fun y a => exists c, lookup y e' = Some c /\ vrel m' c a /\ (mem_id y ivs = true -> In c (mi m'))) (fvs_fd TL fd) ad) ->
+  (cp = false -> newcps = []) ->
+  (forall a c, In (a, c) newcps -> cp_ok m' (cells (add_cells st (map (fun f => CFun f e') fds))) H' a c) ->
   MS m' (add_cells st (map (fun f => CFun f e') fds)) H'.
 Proof.
-  intros m st h H' fds e newvecs HMS Hnd Hpre Hnv c0 e' Hnf m' Hslots.
+  intros m st h H' fds e newvecs newcps HMS Hnd Hpre Hnv c0 e' Hnf m' Hslots Hncp Hnew_cp.
   assert (He : ext m m') by ext_solve.
   assert (Hlen := ms_len _ _ _ HMS).
   assert (Hnew : forall c a, (length (mm m) <= c)%nat -> mget m' c = Some (MA a) ->
@@ -552,10 +554,12 @@ Proof.
       eapply (proj1 (NoDup_nth_error (map fd_name fds))); eauto.
       * apply nth_error_Some. congruence.
       * congruence.
-  - intros a c Hin. eapply cp_ok_mono; [exact He | | | apply (ms_cp _ _ _ HMS _ _ Hin)].
-    + intros c1 fd cenv Hc. simpl. rewrite nth_error_app1; [exact Hc | apply nth_error_Some; congruence].
-    + intros a1 vec addr Hh. rewrite Hpre; [exact Hh | apply nth_error_Some; congruence].
-  - exact (ms_nocp _ _ _ HMS).
+  - intros a c Hin. unfold m' in Hin. simpl in Hin. apply in_app_or in Hin. destruct Hin as [Hin | Hin].
+    + eapply cp_ok_mono; [exact He | | | apply (ms_cp _ _ _ HMS _ _ Hin)].
+      * intros c1 fd cenv Hc. simpl. rewrite nth_error_app1; [exact Hc | apply nth_error_Some; congruence].
+      * intros a1 vec addr Hh. rewrite Hpre; [exact Hh | apply nth_error_Some; congruence].
+    + apply (Hnew_cp a c Hin).
+  - intros Hcp. unfold m'. simpl. rewrite (ms_nocp _ _ _ HMS Hcp), (Hncp Hcp). reflexivity.
   - intros c Hin. destruct (ms_int _ _ _ HMS c Hin) as (w & Hw & Hk). exists w. split; [|exact Hk].
     simpl. rewrite nth_error_app1; [exact Hw | apply nth_error_Some; congruence].
 Qed.
@@ -791,7 +795,7 @@ Definition self_match (G : ginfo) (IV : list ident) (fc : fctx) (gp : nat) (gl :
       lookup f e = Some cf /\ In (cf, (sfd, scenv)) (mf m) /\ fd_name sfd = f /\
       nth_error (g_all G) kself = Some (KNamed, sfd) /\ In (gp, gl) (mv m) /\
       Forall2 (fun y a => exists c, lookup y scenv = Some c /\ vrel m c a /\ (mem_id y IV = true -> In c (mi m))) (fvs_fd (g_tl G) sfd) gl /\
-      (forall x c, lookup x scenv = Some c -> is_fname (g_sigs G) x = false).
+      (forall x c, lookup x scenv = Some c -> is_fname (g_sigs G) x = false) /\ mem_id f IV = false.
 
 Lemma self_match_ext : forall G IV fc gp gl m m' e ce, self_match G IV fc gp gl m e ce -> ext m m' ->
   self_match G IV fc gp gl m' e ce.
@@ -946,19 +950,19 @@ Proof. exact nth_error_rev_seq. Qed.
 
 (* the evaluator's recursive environment and the machine's slots agree, at the level after ALLOC, before any
    closure of the run is made (env_match does not look at the heap), whatever vectors will be recorded *)
-Lemma env_match_run : forall G IV fc gp gl m e ce sc L stk fds (st : state) (h : list hcell) nv nf,
+Lemma env_match_run : forall G IV fc gp gl m e ce sc L stk fds (st : state) (h : list hcell) nv nf ncp,
   env_match G IV fc gp gl m e ce sc L stk ->
   NoDup (map fd_name fds) ->
   (forall f, In f fds -> mem_id (fd_name f) sc = false /\ is_fname (g_sigs G) (fd_name f) = false /\
                          self_is (fc_self fc) (fd_name f) = false /\ mem_id (fd_name f) IV = false) ->
   length (mm m) = length (cells st) ->
   let k := length fds in
-  env_match G IV fc gp gl {| mm := mm m ++ map MA (seq (length h) k); mv := mv m ++ nv; mf := mf m ++ nf; mc := mc m; mi := mi m |}
+  env_match G IV fc gp gl {| mm := mm m ++ map MA (seq (length h) k); mv := mv m ++ nv; mf := mf m ++ nf; mc := mc m ++ ncp; mi := mi m |}
             (func_env fds (length (cells st)) e) (func_cenv fds (L + 1) ce)
             (map fd_name fds ++ sc) (L + Z.of_nat k) (rev (seq (length h) k) ++ stk).
 Proof.
-  intros G IV fc gp gl m e ce sc L stk fds st h nv nf Hem Hnd Hnew Hlen k.
-  set (m' := {| mm := mm m ++ map MA (seq (length h) k); mv := mv m ++ nv; mf := mf m ++ nf; mc := mc m; mi := mi m |}).
+  intros G IV fc gp gl m e ce sc L stk fds st h nv nf ncp Hem Hnd Hnew Hlen k.
+  set (m' := {| mm := mm m ++ map MA (seq (length h) k); mv := mv m ++ nv; mf := mf m ++ nf; mc := mc m ++ ncp; mi := mi m |}).
   assert (He : ext m m') by ext_solve.
   destruct Hem as (H1 & H2 & H3 & H4 & H5 & H6 & H7 & H8).
   assert (Hne : forall y, mem_id y sc = true -> forall f, In f fds -> fd_name f <> y).
